@@ -56,6 +56,18 @@ TermOK(KK, m, ret, frame, decs) ==
      /\ Denotes(KK, frame, m)
      /\ decs = <<RefDec(KK, frame).msg>>
 
+\* several messages finished one after the other into the same output (a ring the
+\* reader drains from the front): the bytes the reader got are exactly the frames
+\* of the finished messages, in order; decs = the library decoder's reading of them
+RECURSIVE StreamOK(_, _, _, _)
+StreamOK(KK, sent, wire, decs) ==
+  IF Len(sent) = 0 THEN Len(wire) = 0 /\ Len(decs) = 0
+  ELSE /\ HasZero(wire) /\ Len(decs) > 0
+       /\ LET f == FirstFrame(wire) IN
+          /\ Denotes(KK, f, sent[1])
+          /\ decs[1] = RefDec(KK, f).msg
+          /\ StreamOK(KK, DropN(sent, 1), AfterFrame(wire), DropN(decs, 1))
+
 ---------------------------------------------------------------------------
 (* Tier 2: the encoder loop.  closed = finished bytes, r = literal bytes   *)
 (* of the open block (its code is Len(r)+1), left = free bytes behind the  *)
